@@ -44,6 +44,7 @@ type Case struct {
 	CutOffField    string
 	PartialPct     int // probability of a partial chunk
 	BigChunks      bool
+	HugeLine       bool // one line of 41 partial chunks of 16 KiB (> 512 KiB joined, below split_event_size) per stream
 }
 
 // Line is one input line of one (source, stream).
